@@ -1,5 +1,5 @@
 """C13 - Outgoing QoS 1/2 messages keep publish() order, also when retransmitted.  Model M2 (coq/theories/Session), shared machinery in harness/session.py."""
-from harness import session
+from harness import session, session2
 
 RULE = ("corpus of repaired-defect witnesses first; exhaustive operation sequences of length 3 (quick) / 4 (thorough) over "
         "14 operations (publish q1/q2, reconnect ok/fail, loss, CONNACK, PUBACK/PUBREC/PUBCOMP for ids 1..2, inbound PUBLISH q2, "
@@ -9,7 +9,7 @@ RULE = ("corpus of repaired-defect witnesses first; exhaustive operation sequenc
         "extracted model: events and internal state are compared after every operation, and the trace recorded from the "
         "implementation is judged by the extracted checker c13_ok. distinct = distinct (config, implementation trace); "
         "non-trivial = the trace contains at least one PUBLISH/PUBREL written with QoS>0")
-EXTRACT_TAGS = ["session", "mid"]
+EXTRACT_TAGS = ["session", "session2", "mid"]
 GENERATED_ITEMS = []
 ASSUMPTIONS = [
     "whole-packet, never-blocking I/O (the fragmentation/partial-write independence is C05/C06)",
@@ -19,11 +19,17 @@ ASSUMPTIONS = [
 KEYS = ["C13"]
 
 
+KEYS2 = ["C13", "C13h", "FIFO"]   # checkers of the second-generation model (output queue, blocking transport)
+
+
 def run(ctx, out):
     session.standard_run(ctx, out, KEYS, "C13", conforming=True)
+    session2.standard_run(ctx, out, KEYS2, "C13-s2", conforming=True)
 
 
 def replay(payload):
+    if str(payload.get("signature", "")).endswith("-s2") and hasattr(session2, "replay_case"):
+        return session2.replay_case(payload, KEYS2)
     return session.replay_case(payload, KEYS)
 
 
